@@ -36,6 +36,21 @@ def _q_eq_formula(a, b):
     return z3bool(r)
 
 
+def _pow_axiom(r, base, k):
+    """r = base^(p/q)  =>  r^q = base^p   (small q only)"""
+    try:
+        kk = lift_number(k) if not isinstance(k, Fraction) else k
+    except Exception:
+        return
+    if kk.denominator in (2, 3, 4) and abs(kk.numerator) <= 4:
+        lhs = r ** kk.denominator
+        rhs = Q.of(base) ** abs(kk.numerator)
+        if kk.numerator < 0:
+            rhs = Q(Fraction(1))._mul(rhs._inv())
+        from .dom import z3bool
+        _ctx.cur().assume(z3bool((lhs._add(-rhs)).rel0("==")))
+
+
 def uf(name, args, sign=None, strict=False, kind="Q"):
     """Apply uninterpreted function `name` to `args`; returns a Q symbol (or LogQ)."""
     cx = _ctx.cur()
@@ -117,14 +132,24 @@ def sym_pow(base, k):
         r = Q(Fraction(1))
         if b.c != 1:
             r = r * uf("powc", (Q(b.c), k), sign="pos")
-        for f, e in b.n.items():
-            r = r * uf("pow", (Q(Fraction(1), {f: 1}), k), sign="pos") ** e
-        for f, e in b.d.items():
-            r = r / (uf("pow", (Q(Fraction(1), {f: 1}), k), sign="pos") ** e)
+        cx = _ctx.cur()
+        for src, inv in ((b.n, False), (b.d, True)):
+            for f, e in src.items():
+                n0 = len(cx.uf_memo.get("pow", ()))
+                base_f = Q(Fraction(1), {f: 1})
+                u = uf("pow", (base_f, k), sign="pos")
+                if len(cx.uf_memo["pow"]) > n0:
+                    _pow_axiom(u, base_f, k)
+                r = (r / (u ** e)) if inv else (r * u ** e)
         return r
     if b.c > 0 and len(b.n) == 1 and not b.d and b.c == 1 and \
             next(iter(b.n)).trivial_sign() == "pos":
-        return uf("pow", (b, k), sign="pos")
+        cx = _ctx.cur()
+        n0 = len(cx.uf_memo.get("pow", ()))
+        u = uf("pow", (b, k), sign="pos")
+        if len(cx.uf_memo["pow"]) > n0:
+            _pow_axiom(u, b, k)
+        return u
     cx = _ctx.cur()
     n0 = len(cx.uf_memo.get("pow", ()))
     r = uf("pow", (b, k), sign="nonneg")
